@@ -16,7 +16,7 @@ pub const FAMILIES: &[&str] = &[
     "hll", "hll_union", "theta", "theta_v4", "cpc", "cpc_union", "bloom", "cm_u8", "cm_u16", "cm_u32", "cm_u64", "cm_i8",
     "cm_i16", "cm_i32", "cm_i64", "fi_i64", "fi_u64", "fi_str", "td",
     // ForeignWriter variants (independent spec encoder): layouts this library never writes itself
-    "hll_foreign", "theta_foreign", "td_foreign", "bloom_foreign",
+    "hll_foreign", "theta_foreign", "td_foreign", "bloom_foreign", "fi_foreign",
 ];
 
 /// The reader family an image of this corpus family is addressed to.
@@ -26,6 +26,7 @@ pub fn reader_family(fam: &str) -> &str {
         "theta_foreign" => "theta",
         "td_foreign" => "td",
         "bloom_foreign" => "bloom",
+        "fi_foreign" => "fi_i64",
         f => f,
     }
 }
@@ -82,6 +83,7 @@ pub fn gen_spec(rng: &mut Rng, fam: &str) -> Spec {
         "theta_foreign" => (rng.range(1, 4), 0, match rng.below(4) { 0 => 0, 1 => 1, _ => rng.range(2, 400) }),
         "td_foreign" => (*rng.pick(&[10u64, 50, 200]), rng.below(4), match rng.below(4) { 0 => 0, 1 => 1, _ => rng.range(2, 60) }),
         "bloom_foreign" => (rng.range(1, 3000), rng.range(1, 8), rng.range(0, 100)),
+        "fi_foreign" => (rng.range(3, 8), rng.below(8), rng.range(1, 6)),
         "theta" | "theta_v4" => {
             let lg_k = rng.range(5, 9);
             let k = 1u64 << lg_k;
@@ -345,6 +347,33 @@ pub fn build_image(s: &Spec, generation: u8) -> Vec<u8> {
                 }
             }
             img
+        }
+        "fi_foreign" => {
+            // Frequent Items images from the spec encoder whose three 64-bit quantities (stream weight,
+            // offset, counters) are extreme or disagree in ways that keep every single-field check happy
+            use crate::speccodec::simple::{FiItem, fi_encode};
+            let lg_max = (s.a as u8).clamp(3, 10);
+            let m = (n as u64).clamp(1, 6);
+            let mut counts: Vec<u64> = (0..m).map(|i| 1 + (s.seed >> (8 * i)) % 9).collect();
+            let sum: u64 = counts.iter().sum();
+            let (weight, offset) = match s.b % 8 {
+                0 => (sum + 40, 40),                                   // honest
+                1 => (u64::MAX, u64::MAX - 2),                         // counter + offset passes 2^64
+                2 => {
+                    counts[0] = (1 << 63) + 50;
+                    ((1 << 63) + 100 + sum, 1 << 63)
+                }
+                3 => (sum, sum + 1),                                   // offset above the stream weight
+                4 => (sum - 1, 0),                                     // counters above the stream weight
+                5 => {
+                    counts[0] = 0;                                     // a tracked item with a zero counter
+                    (sum + 5, 5)
+                }
+                6 => (u64::MAX, 0),                                    // valid: almost everything purged away
+                _ => (u64::MAX - 1, u64::MAX - 1 - sum),               // offset + counters == weight exactly, at the top of the range
+            };
+            let entries: Vec<(FiItem, u64)> = counts.iter().enumerate().map(|(i, c)| (FiItem::Long((i as u64 * 7919).wrapping_sub(1000)), *c)).collect();
+            fi_encode(lg_max, 3, weight, offset, &entries, false)
         }
         "theta_foreign" => {
             use crate::speccodec::theta as t;
